@@ -30,6 +30,14 @@ def _names(run, rules=None):
 def run_all():
     """-> (ok, [lines])"""
     fx = _facts()
+    saved_fx, q.FX = q.FX, fx       # helper-aware queries resolve callees in the fact base under test
+    try:
+        return _run_all(fx)
+    finally:
+        q.FX = saved_fx
+
+
+def _run_all(fx):
     lines = []
     ok = True
 
@@ -129,6 +137,38 @@ def run_all():
                 if lo < 0 or hi > 2:
                     rep.add(name)
     expect('R11 intervals', rep, {f.norm.split('::')[-1] for f in fns})
+
+    # --- st_paths: R16 relock, non-owning captures, helper-aware ordering, edge rules, noreturn exits
+    fns = [f for f in fx.functions.values() if f.file.endswith('st_paths.cpp') and f.cls == 'st::sched']
+    rep = set()
+    r = engine.Run('ST', 'thorough', fx)
+    engines.r16_no_relock(r, fns=fns, floor=1)
+    rep |= _names(r)
+    ev_key = lambda f: [a.site for a in q.field_accesses(f, {'st::sched::m_key'}) if a.kind == 'assign']
+    ev_cancel = lambda f: [c for c in f.calls() if q.callee_name(c) == 'st::sched::cancel']
+    ev_false = lambda f: [a.site for a in q.field_accesses(f, {'st::sched::m_expired'}) if a.kind == 'assign' and q.strip_casts(a.site.get('rhs')).get('v') is False]
+    ev_add = lambda f: [c for c in f.calls() if q.callee_name(c) == 'st::sched::add_timer']
+    for f in fns:
+        name = f.norm.split('::')[-1]
+        for n in f.all_nodes():
+            if n['k'] == 'lambda' and handlers.nonowning_captures(f, n):
+                rep.add(name)
+        if 'rearm' in name:
+            ok1, n1 = q.each_preceded(f, ev_cancel, ev_key)
+            ok2, n2 = q.each_followed(f, ev_false, ev_add)
+            if not (ok1 and n1 and ok2 and n2):
+                rep.add(name)
+        if 'fail_edge' in name:
+            errs = [c for c in f.calls() if q.callee_name(c) == 'st::sched::answer']
+            ok1, n1 = q.edge_must_pass(f, 'ec', True, errs)
+            if not (ok1 and n1):
+                rep.add(name)
+        if name.endswith(('_exit', 'falls_through')):
+            for n in f.all_nodes():
+                if n['k'] == 'if' and not q.leaves_function(f, n['then']):
+                    rep.add(name)
+    uni = {f.norm.split('::')[-1] for f in fns if f.norm.split('::')[-1].startswith(('bad_', 'good_'))}
+    expect('R16/R4 paths+helpers', rep, uni)
     return ok, lines
 
 
